@@ -13,7 +13,7 @@ m = {
  "hooks": {
   "guard": "IBEX_VERIF_HOOKS",
   "enable": "out-of-tree cmake build in /verif/.build/ibex with -DCMAKE_CXX_FLAGS='-Wno-error -DIBEX_VERIF_HOOKS' (done by setup.py and incrementally by every check)",
-  "baseline_off_cmd": "cmake --build /repo/_build -j16 && ctest --test-dir /repo/_build -j8 --timeout 900",
+  "baseline_off_cmd": "ninja -C /repo/_build check",
   "source_commits": hook_commits,
   "add_only": True
  },
